@@ -108,6 +108,13 @@ def gen_case(seed, tier='quick'):
         ops.append(op)
         if rng.random() < 0.4:
             ops.append({'op': 'eval_old', 'pick': rng.randrange(1 << 16)})
+        if nwb > 1 and rng.random() < 0.25:
+            # the file at this path is replaced by another workbook; later
+            # loads of the path must see the new content
+            ops.append({'op': 'rewrite', 'wb': b,
+                        'with': rng.choice([k for k in range(nwb) if k != b])})
+            ops.append({'op': 'load', 'wb': b, 'ignore': [], 'via': 'path',
+                        'bufsize': 8192})
     if nloads > 1 and rng.random() < 0.6:
         # reload the first workbook with its first ignore list: must be equal
         first = next(o for o in ops if o['op'] == 'load')
@@ -293,6 +300,7 @@ def _run(case, fs):
     pristine = _patch_state()
     loaded = []         # (wb index, ignore, model, dump)
     first_dump = {}
+    content = {}        # path index -> workbook whose bytes it holds now
 
     for seq, op in enumerate(case['ops']):
         if viol is not None:
@@ -309,8 +317,18 @@ def _run(case, fs):
                     sig.append('e')
             continue
         b = op['wb'] % len(books)
-        wb = books[b]
-        ignore = list(op['ignore'])
+        if op['op'] == 'rewrite':
+            k = op['with'] % len(books)
+            content[b] = k
+            fs.put(f'/simfs/book{b}.xlsx',
+                   xlsx.render_xlsx(books[k], books[k].get('knobs')))
+            first_dump = {key: v for key, v in first_dump.items()
+                          if key[0] != b}
+            bump('probe:file_rewritten_between_loads')
+            log.append([seq, 'rewrite', b, k])
+            continue
+        wb = books[content.get(b, b)]
+        ignore = [x for x in op['ignore']]
         path = f'/simfs/book{b}.xlsx'
         fault = op.get('fault')
         rf, short, at = None, None, None
